@@ -851,13 +851,32 @@ impl PatternFusion for MatMulAddFusion {
         graph: &Graph,
     ) -> Result<FusedMatMul, FusionError> {
         let bias_input = matmul_add_match.node_id("bias").unwrap();
-        let is_bias_a_vector = match graph.get_node(bias_input) {
-            Some(Node::Constant(const_node)) => const_node.shape().len() == 1,
-            _ => false,
+        let bias_len = match graph.get_node(bias_input) {
+            Some(Node::Constant(const_node)) => match const_node.shape() {
+                [len] => Some(*len),
+                _ => None,
+            },
+            _ => None,
+        };
+        let Some(bias_len) = bias_len else {
+            return Err(FusionError::CheckFailed("bias not a vector"));
         };
 
-        if !is_bias_a_vector {
-            return Err(FusionError::CheckFailed("bias not a vector"));
+        // The fused bias is added to each row of the matmul output, so its
+        // length must match the number of columns. Skip the fusion if the
+        // shape of `b` is known and it does not have `bias_len` columns.
+        let b_input = matmul_add_match.node_id("b").unwrap();
+        if let Some(b_shape) = graph.get_node(b_input).and_then(|n| n.shape()) {
+            let bias_matches_columns = match b_shape.as_ref() {
+                [.., _, Dimension::Fixed(cols)] => *cols == bias_len,
+                [.., _, Dimension::Symbolic(_)] => true,
+                _ => false,
+            };
+            if !bias_matches_columns {
+                return Err(FusionError::CheckFailed(
+                    "bias length does not match matmul output columns",
+                ));
+            }
         }
 
         Ok(FusedMatMul { alpha: None })
